@@ -39,7 +39,8 @@ RULE = ("a runner configuration = 0-3 unpacked parameters of lengths 1-5 (lists 
         "the runners have their first simulate() aborted by an exception in "
         "user code and are simulated again; reconfiguration also goes through "
         "params[name] = values; confidence-interval lookups are compared with "
-        "the matching combinations. ")
+        "the matching combinations. "
+        "Half of the file-backed histories use names relative to a fresh working directory (partial-results folder not yet existing, given or default). ")
 ASSUMPTIONS = ["the do-while behaviour (first repetition unconditional) is the "
                "documented one", "serial simulate() only (ipyparallel absent)"]
 
@@ -564,11 +565,32 @@ def case_files(ctx, rng, idx):
     import shutil
     shutil.rmtree(wd, ignore_errors=True)
     os.makedirs(wd)
+    # names relative to a fresh working directory (the usual way: the folder for
+    # the partial results does not exist yet), or absolute names
+    relative = idx % 2 == 0
+    cwd0 = os.getcwd()
+    if relative:
+        os.chdir(wd)
+    try:
+        _files_body(ctx, rng, idx, s, variations, nvar, delete, wd, relative)
+    finally:
+        os.chdir(cwd0)
+        shutil.rmtree(wd, ignore_errors=True)
+
+
+def _files_body(ctx, rng, idx, s, variations, nvar, delete, wd, relative):
+    import shutil
     runner = ProbeRunner(s)
-    runner.set_results_filename(os.path.join(wd, "res"))
-    runner.partial_results_folder = os.path.join(wd, "partial")
+    if relative:
+        runner.set_results_filename("res")
+        if rng.random() < 0.5:
+            runner.partial_results_folder = "partial"      # (else the default folder)
+    else:
+        runner.set_results_filename(os.path.join(wd, "res"))
+        runner.partial_results_folder = os.path.join(wd, "partial")
     runner.delete_partial_results_bool = delete
-    tag = {**spec_tag(s), "delete_partial_results": delete}
+    tag = {**spec_tag(s), "delete_partial_results": delete, "relative_names": relative,
+           "partial_results_folder": runner.partial_results_folder}
     disk = {}                      # variation index -> outcome dict of the model
     ops = []
     nops = int(rng.integers(2, 5))
